@@ -165,4 +165,59 @@ theorem reply_other_owner (c : Cfg) (s : LH) (f : List Addr) (d : Details) (id :
       · rw [h2] at hrl; cases hrl
         rw [h1, heq, h3]; rfl
 
+
+/-! ### C36 -/
+
+open Nebula.Spec.Lighthouse (usable usableGlobal)
+
+theorem shouldAddOne_eq_usable (c : Cfg) (v u : Addr) : shouldAddOne c v u = usable c v u := by
+  simp only [shouldAddOne, usable]
+  cases c.ral.allow v u <;> cases inMyNets c u <;> rfl
+
+theorem shouldAddAll_usableGlobal (c : Cfg) (vs : List Addr) (u : Addr) (h : shouldAddAll c vs u = true) :
+    usableGlobal c u = true := by
+  simp only [shouldAddAll, AllowList.Remote.allowAll] at h
+  simp only [usableGlobal]
+  cases hg : AllowList.allow c.ral.allowList u <;> cases hn : inMyNets c u <;> simp_all
+
+theorem usable_usableGlobal (c : Cfg) (v u : Addr) (h : usable c v u = true) : usableGlobal c u = true := by
+  simp only [usable, AllowList.Remote.allow, Bool.and_eq_true] at h
+  simp only [usableGlobal, Bool.and_eq_true]
+  refine ⟨h.1, ?_⟩
+  have h2 := h.2
+  split at h2
+  · cases h2
+  · exact h2
+
+theorem punch_targets (c : Cfg) (s : LH) (f : List Addr) (d : Details) :
+    ∀ p ∈ (handleHostPunchNotification c s f d).2.punches, ∀ t, p.target = some t → usable c p.vpn t.addr = true := by
+  unfold handleHostPunchNotification
+  split
+  · intro p hp; simp at hp
+  · split
+    · intro p hp; simp at hp
+    · intro p hp t ht
+      simp only [List.mem_append, List.mem_map, List.mem_filter, List.mem_singleton] at hp
+      rcases hp with (⟨a, ⟨_, ha⟩, rfl⟩ | ⟨a, ⟨_, ha⟩, rfl⟩) | rfl
+      · simp only [Option.some.injEq] at ht; subst ht
+        rw [← shouldAddOne_eq_usable]; exact ha
+      · simp only [Option.some.injEq] at ht; subst ht
+        rw [← shouldAddOne_eq_usable]; exact ha
+      · cases ht
+
+/-- what a report leaves under its owner passed the filter and is capped. -/
+theorem recordReport_owner (c : Cfg) (s : LH) (id : Nat) (owner vpn : Addr) (d : Details) (rl : RL)
+    (hg : s.getList id = some rl) :
+    ∃ rl' oc, (recordReport c s id owner vpn d).getList id = some rl' ∧ getOwner rl'.cache owner = some oc ∧
+      (∀ a ∈ oc.v4r, usable c vpn a.addr = true) ∧ (∀ a ∈ oc.v6r, usable c vpn a.out.addr = true) ∧
+      oc.v4r.length ≤ maxRemotes ∧ oc.v6r.length ≤ maxRemotes ∧ oc.relay.length ≤ maxRemotes := by
+  obtain ⟨oc, h1, h4, h6, hr⟩ := report_owner rl owner d.v4 d.v6 (getRelays d) (fun u => shouldAddOne c vpn u)
+  refine ⟨_, oc, ?_, h1, ?_, ?_, ?_, ?_, ?_⟩
+  · simp only [recordReport, hg, getList_setList, if_true, Option.map_some]
+  · intro a ha; rw [h4] at ha; rw [← shouldAddOne_eq_usable]; exact (List.mem_filter.mp ha).2
+  · intro a ha; rw [h6] at ha; rw [← shouldAddOne_eq_usable]; exact (List.mem_filter.mp ha).2
+  · rw [h4]; exact Nat.le_trans (List.length_filter_le _ _) (by simp [List.length_take]; omega)
+  · rw [h6]; exact Nat.le_trans (List.length_filter_le _ _) (by simp [List.length_take]; omega)
+  · rw [hr]; simp [List.length_take]; omega
+
 end Nebula.Lemmas.Lighthouse
